@@ -177,7 +177,7 @@ def theorem_names(path, namespace):
     return names
 
 
-def stage_a(ctx, prop_module, driver_modules=('Drivers.Main',)):
+def stage_a_one(ctx, prop_module, driver_modules=('Drivers.Main',)):
     """returns dict(obligations=[...], failed=[(name, why)], translator=[...], build_ok, refdrv_ok, log)"""
     res = {'obligations': [], 'failed': [], 'translator': [], 'build_ok': False, 'refdrv_ok': False,
            'statements': {}, 'axioms': {}, 'log': ''}
@@ -259,6 +259,26 @@ def stage_a(ctx, prop_module, driver_modules=('Drivers.Main',)):
         if m:
             res['statements'][n] = re.sub(r'\s+', ' ', m.group(1)).strip()[:600]
     return res
+
+
+def stage_a(ctx, prop_modules):
+    """prop_modules: one module name or a list; results are merged"""
+    if isinstance(prop_modules, str):
+        prop_modules = [prop_modules]
+    tot = None
+    for k, m in enumerate(prop_modules):
+        r = stage_a_one(ctx, m)
+        if tot is None:
+            tot = r
+        else:
+            tot['obligations'] += r['obligations']
+            tot['failed'] += [f for f in r['failed'] if f not in tot['failed']]
+            tot['build_ok'] = tot['build_ok'] and r['build_ok']
+            tot['refdrv_ok'] = tot['refdrv_ok'] and r['refdrv_ok']
+            tot['statements'].update(r['statements'])
+            tot['axioms'].update(r['axioms'])
+            tot['log'] += r['log']
+    return tot
 
 
 def leanchecker(ctx, prop_module):
@@ -668,13 +688,15 @@ def _run_check(ctx, spec, replay):
         return run_replay(ctx, spec, replay)
     a = stage_a(ctx, spec.PROPS_MODULE)
     a_broken = bool(a['failed'])
-    checker_cmd = 'cd /verif/lean && lake build %s && lake env lean <audit: #print axioms of every theorem>' % spec.PROPS_MODULE
+    checker_cmd = 'cd /verif/lean && lake build %s && lake env lean <audit: #print axioms of every theorem>' % (
+        spec.PROPS_MODULE if isinstance(spec.PROPS_MODULE, str) else ' '.join(spec.PROPS_MODULE))
     if ctx.tier == 'thorough' and a['build_ok']:
-        ok, out = leanchecker(ctx, spec.PROPS_MODULE)
-        checker_cmd += ' && lake env leanchecker %s' % spec.PROPS_MODULE
-        if not ok:
-            a['failed'].append(('leanchecker:' + spec.PROPS_MODULE, out))
-            a_broken = True
+        for pm in ([spec.PROPS_MODULE] if isinstance(spec.PROPS_MODULE, str) else spec.PROPS_MODULE):
+            ok, out = leanchecker(ctx, pm)
+            checker_cmd += ' && lake env leanchecker %s' % pm
+            if not ok:
+                a['failed'].append(('leanchecker:' + pm, out))
+                a_broken = True
     streams = [s for s in spec.STREAMS if ctx.tier == 'thorough' or not getattr(s, 'thorough_only', False)]
     build_error = None
     if a['refdrv_ok']:
